@@ -2,6 +2,7 @@ package main
 
 import (
 	"fmt"
+	"strings"
 	"go/token"
 	"go/types"
 	"sort"
@@ -34,6 +35,8 @@ func checkC01(c *Ctx, r *Report) {
 	// excluded selections contribute no response key: the directive evaluator's rules (C09) are part of
 	// "exactly the selected data" and are re-stated here under this property
 	importRules(c, r, "C09", "C01.SKIP", "the @skip/@include rules of C09 (sticky exclusion, polarity, gate before every dispatch, operation variables), which decide which selections are in the response at all")
+	importRules(c, r, "C10", "C01.FDEF", "the field definition used for a resolution is looked up in the container type of that resolution (C10.FIELD): a definition remembered from another container (the first member of a union list) coerces the value with the wrong type", "C10.FIELD")
+	importRules(c, r, "C06", "C01.NESTED", "each element of a list is resolved by the type dispatcher applied to the list's element type (C06.G1): inner lists of [[T]] are mirrored element by element only through the dispatcher", "C06.G1~type dispatcher for the element type")
 	r.rule("C01.NATIVE", "lists held in the Go carriers the library walks itself (frozen table) are mirrored by the library's own element loops on every configuration: no path hands such a value to the root resolver's Len/Nth")
 	nativeListRule(c, r, a, "C01.NATIVE", "a root resolver written for its own containers answers Len 0 for it, so the list comes back empty, silently, instead of mirrored element by element")
 }
@@ -684,7 +687,12 @@ func importRules(c *Ctx, r *Report, from, rule, text string, only ...string) {
 		if len(only) > 0 {
 			keep := false
 			for _, w := range only {
-				if o.Rule == w {
+				// "RULE" or "RULE~substring of the construct"
+				rule, sub := w, ""
+				if i := strings.IndexByte(w, '~'); i >= 0 {
+					rule, sub = w[:i], w[i+1:]
+				}
+				if o.Rule == rule && (sub == "" || strings.Contains(o.Key, sub)) {
 					keep = true
 				}
 			}
